@@ -9,6 +9,9 @@ void sched_begin(uint64_t seed, int strategy, int param);
 // end the session; returns the number of session threads that have not finished (0 on a clean shutdown)
 int sched_end(void);
 void sched_set_budget(uint64_t steps);                 // progress budget per session (0 = none)
+// systematic exploration: when set, every scheduling decision is delegated to fn(ncand, enabled thread ids, current thread id,
+// current thread still enabled?) -> id of the thread to run; random perturbations (holds, spurious wake-ups, timeouts) are off
+void sched_set_chooser(int (*fn)(int ncand, const int * cand_ids, int current_id, int current_enabled));
 void sched_set_spurious(int permille);                 // spurious condition-variable wake-ups
 void sched_set_timeouts(int permille);                 // timed waits time out at arbitrary scheduling points (virtual time)
 void sched_replay(const uint8_t * seq, size_t n);      // force this schedule in the next session
